@@ -265,11 +265,26 @@ def handleOne : List String → String
       let txToks := (kvs.filter (·.1 == "tx")).map (·.2)
       match parseEnv? kvs, txToks.mapM parseTx?, (lookup kvs "pb").bind parseBool? with
       | some e, some pool, some pb =>
+        if lookup kvs "race" == some "1" then
+          -- the tip moves while the generator runs: the admissible outcomes are an error or a
+          -- template for the new tip; the harness reports membership
+          "race:admissible"
+        else
         match newBlockTemplate heapOps e pool (defaultFuel pool), diffObs e kvs with
         | _, none => "bad-op"
         | Result.ok t, some d => render e pool t pb ++ d
         | Result.err, _ => "err"
       | _, _, _ => "bad-op"
+  | "reuse" :: rest =>
+    match rest.mapM kv? with
+    | none => "bad-op"
+    | some kvs =>
+      let txToks := (kvs.filter (·.1 == "tx")).map (·.2)
+      match parseEnv? kvs, txToks.mapM parseTx? with
+      | some e, some pool =>
+        -- six calls with the same inputs: six times the same template (`inputs_are_values`)
+        "R[" ++ renderCore e pool (newBlockTemplate heapOps e pool (defaultFuel pool)) ++ "] reuse=same:1,in:1"
+      | _, _ => "bad-op"
   | "two" :: rest =>
     match rest.mapM kv? with
     | none => "bad-op"
